@@ -144,19 +144,23 @@ def run_for(pid, tree, base_rep=None, jobs=None, only=None):
         from .core import VERIF
         import json
         limits = {}
-        lp = os.path.join(VERIF, "seeded", "refactors_round3", "KNOWN_LIMITS.json")
-        if os.path.exists(lp):
-            with open(lp, encoding="utf-8") as fh:
-                limits = json.load(fh).get("limits", {})
+        for sub, key in (("refactors_round3", "limits"), ("refactors_round4", "limits"), ("halves", "conservative")):
+            lp = os.path.join(VERIF, "seeded", sub, "KNOWN_LIMITS.json" if sub != "halves" else "KNOWN_CONSERVATIVE.json")
+            if os.path.exists(lp):
+                with open(lp, encoding="utf-8") as fh:
+                    limits[sub] = json.load(fh).get(key, {})
         for dp in sorted(glob.glob(os.path.join(VERIF, "seeded", "refactors", "*.diff"))) + \
-                sorted(glob.glob(os.path.join(VERIF, "seeded", "refactors_round3", "*.diff"))):
-            r3 = os.path.basename(os.path.dirname(dp)) == "refactors_round3"
+                sorted(glob.glob(os.path.join(VERIF, "seeded", "refactors_round3", "*.diff"))) + \
+                sorted(glob.glob(os.path.join(VERIF, "seeded", "refactors_round4", "*.diff"))) + \
+                sorted(glob.glob(os.path.join(VERIF, "seeded", "halves", "*.diff"))):
+            sub = os.path.basename(os.path.dirname(dp))
+            r3 = sub != "refactors"
             base_name = os.path.basename(dp)[:-5]
-            if r3 and pid in limits.get(base_name, {}).get("properties", []):
+            if r3 and pid in limits.get(sub, {}).get(base_name, {}).get("properties", []):
                 continue            # a measured limit of this property's recognisers (listed with its reason), not a regression
             with open(dp, encoding="utf-8") as fh:
                 files = apply_unified_diff(tree.files, fh.read())
-            name = ("corpus3:" if r3 else "corpus:") + base_name
+            name = ({"refactors": "corpus:", "refactors_round3": "corpus3:", "refactors_round4": "corpus4:", "halves": "half:"}[sub]) + base_name
             if files is None:
                 stale.append(name)
                 continue
